@@ -1,5 +1,5 @@
 (* Executable entry points of the C05 model (correspondence) and specification oracles. *)
-From Verif Require Import Lib.Bytes Json.Ast Json.Parse Json.Print Event.Redact Event.RedactSpec.
+From Verif Require Import Lib.Bytes Json.Ast Json.Parse Json.Print Event.Redact Event.RedactSpec Event.Untrusted.
 Open Scope N_scope.
 
 Definition show_outcome (o : outcome) : bytes :=
@@ -81,7 +81,78 @@ Definition run_algorithm (args : list bytes) : bytes :=
   | _ => bs "badargs"
   end.
 
-(* [ver; event text] -> what PDU.Redact() leaves: canonical JSON, newline, canonical content *)
+(* ---------- the accessors of the PDU after Redact(), derived from the redacted JSON ---------- *)
+(* the event structs are populated from the redacted JSON only: a field whose key the redaction
+   removed has its zero value (Redacts "", Unsigned empty, StateKey nil, Depth 0, ...) *)
+Definition acc_str (k : bytes) (r : json) : bytes :=
+  match str_field k r with Some s => s | None => [] end.
+Definition acc_int (k : bytes) (r : json) : bytes :=
+  match jget_last k r with
+  | Some (JNum raw) => match num_int raw with Some z => print_int z | None => bs "?" end
+  | _ => bs "0"
+  end.
+Definition acc_ids_v2 (k : bytes) (r : json) : list bytes :=
+  match strs_field k r with Some (Some l) => l | _ => [] end.
+(* event format 1: [event ID, {sha256}] pairs *)
+Definition acc_ids_v1 (k : bytes) (r : json) : list bytes :=
+  match jget_last k r with
+  | Some (JArr l) => map (fun x => match x with JArr (JStr s :: _) => s | _ => [] end) l
+  | _ => []
+  end.
+Definition hex_list (l : list bytes) : bytes := join_bytes (bs ",") (map hex_of_bytes l).
+
+Definition accessor_line (ver : bytes) (r : json) : bytes :=
+  let p := match parser_of_version ver with Some (p, _) => p | None => PV2 end in
+  let ty := acc_str (bs "type") r in
+  let sk := match optstr_field (bs "state_key") r with Some o => o | None => None end in
+  let room := acc_str (bs "room_id") r in
+  let is_create := bytes_eqb ty create_type && match sk with Some [] => true | _ => false end in
+  let hydra := match p with PV3 => true | _ => false end in
+  let ids := match p with PV1 => acc_ids_v1 | _ => acc_ids_v2 end in
+  let auth :=
+    if hydra then
+      if is_create then []
+      else (36 :: match room with _ :: t => t | [] => [] end) :: ids (bs "auth_events") r
+    else ids (bs "auth_events") r in
+  let membership :=
+    match jget content_key r with
+    | Some (JObj c) =>
+        (* json.Unmarshal into struct{Membership string}: every member whose key matches
+           case-insensitively is decoded in turn; null leaves the value, a non-string is an error *)
+        let folded := fold_name (bs "membership") in
+        let res := fold_left (fun acc kv =>
+                     match acc with
+                     | None => None
+                     | Some cur =>
+                         if bytes_eqb (fold_name (utf8_sanitize (fst kv))) folded then
+                           match snd kv with
+                           | JStr s => Some (utf8_sanitize s)
+                           | JNull => Some cur
+                           | _ => None
+                           end
+                         else Some cur
+                     end) c (Some []) in
+        match res, sk with
+        | Some s, Some _ => hex_of_bytes s
+        | _, _ => bs "err"
+        end
+    | _ => bs "err"
+    end in
+  bs "acc redacted=true" ++
+  bs " type=" ++ hex_of_bytes ty ++
+  bs " sender=" ++ hex_of_bytes (acc_str (bs "sender") r) ++
+  bs " room=" ++ (if hydra && is_create then bs "-" else hex_of_bytes room) ++
+  bs " sk=" ++ (match sk with Some s => hex_of_bytes s | None => bs "nil" end) ++
+  bs " redacts=" ++ hex_of_bytes (acc_str (bs "redacts") r) ++
+  bs " unsigned=" ++ hex_of_bytes (match jget (bs "unsigned") r with Some u => canon_print u | None => [] end) ++
+  bs " depth=" ++ acc_int (bs "depth") r ++
+  bs " ts=" ++ acc_int (bs "origin_server_ts") r ++
+  bs " prev=" ++ hex_list (ids (bs "prev_events") r) ++
+  bs " auth=" ++ hex_list auth ++
+  bs " membership=" ++ membership.
+
+(* [ver; event text] -> what PDU.Redact() leaves: canonical JSON, newline, canonical content,
+   newline, the accessors *)
 Definition run_redact_pdu (args : list bytes) : bytes :=
   match args with
   | ver :: txt :: _ =>
@@ -92,10 +163,44 @@ Definition run_redact_pdu (args : list bytes) : bytes :=
             match redact ver j with
             | Some r =>
                 canon_print r ++ [10] ++
-                match jget content_key r with Some c => canon_print c | None => [] end
+                match jget content_key r with Some c => canon_print c | None => [] end ++ [10] ++
+                accessor_line ver r
             | None => bs "err"
             end
           else bs "unmodelled-number"
+      end
+  | _ => bs "badargs"
+  end.
+
+(* specification oracle for PDU.Redact(): [ver; event text; observable].  Judged on the
+   implementation's outputs alone: the event's JSON() has only top-level keys the specification
+   keeps, Content() is its content, and every accessor reports what that JSON carries -- nothing
+   that redaction removed is observable through an accessor *)
+Fixpoint lines_of (s : bytes) (cur : bytes) : list bytes :=
+  match s with
+  | [] => [rev cur]
+  | c :: r => if c =? 10 then rev cur :: lines_of r [] else lines_of r (c :: cur)
+  end.
+
+Definition prop_accessors (args : list bytes) : bytes :=
+  match args with
+  | [ver; txt; obs] =>
+      match spec_of_version ver, lines_of obs [] with
+      | Some sp, [l1; l2; l3] =>
+          match parse_json l1 with
+          | Some e =>
+              let keys_ok := forallb (fun k => mem_bytes k (sp_top sp)) (jkeys e) in
+              let content_ok := bytes_eqb l2 (match jget content_key e with Some c => canon_print c | None => [] end) in
+              let acc_ok := bytes_eqb l3 (accessor_line ver e) in
+              if keys_ok && content_ok && acc_ok then bs "ok"
+              else bs "FAIL keys=" ++ (if keys_ok then bs "ok" else bs "bad") ++
+                   bs " content=" ++ (if content_ok then bs "ok" else bs "bad") ++
+                   bs " accessors=" ++ (if acc_ok then bs "ok" else bs "stale; from JSON: " ++ accessor_line ver e)
+          | None => bs "FAIL JSON() does not parse"
+          end
+      | Some _, _ :: _ :: _ :: l4 :: _ => bs "FAIL " ++ l4
+      | Some _, _ => bs "FAIL shape"
+      | None, _ => bs "unknown-version"
       end
   | _ => bs "badargs"
   end.
@@ -106,4 +211,5 @@ Definition ops_C05 : list (bytes * (list bytes -> bytes)) :=
     (bs "C05.algorithm", run_algorithm);
     (bs "C05.const_ok", fun _ => bs "ok");
     (bs "C05.prop.model_raw", prop_model_raw);
+    (bs "C05.prop.accessors", prop_accessors);
     (bs "C05.prop.spec", prop_spec) ].
